@@ -460,7 +460,7 @@ func replay(args []string) {
 	}
 	jobs := make(chan job, 256)
 	var mu sync.Mutex
-	ncases, nruns, nskip, nsteps, nmis := 0, 0, 0, 0, 0
+	ncases, nruns, nskip, nsteps, nmis, through := 0, 0, 0, 0, 0, 0
 	perKind := map[string]int{}
 	sigCount := map[string]int{}
 	opsSeen := map[string]int{}
@@ -537,6 +537,13 @@ func replay(args []string) {
 				for _, e := range c.H[len(c.H)-1:] {
 					opsSeen[e.A]++
 				}
+				// a call on one vector that changes the content of the other one (shared scalar)
+				if k := len(c.H); k >= 2 && len(c.H[k-1].C) == 2 && len(c.H[k-2].C) == 2 && c.H[k-1].A != "slice" && c.H[k-1].A != "promote" {
+					oth := 2 - c.H[k-1].O // index of the other object in C
+					if oth >= 0 && oth < 2 && c.H[k-1].N[oth] >= 0 && !eqInts(c.H[k-1].C[oth], c.H[k-2].C[oth]) {
+						through++
+					}
+				}
 				mu.Unlock()
 			}
 		}()
@@ -558,7 +565,7 @@ func replay(args []string) {
 		names = append(names, t.Name)
 	}
 	vh.Summary(out, vh.M{"cases": ncases, "runs": nruns, "skipped": nskip, "calls": nsteps, "mismatches": nmis,
-		"types": names, "per_kind": perKind, "last_ops": opsSeen, "operand": operand, "mismatches_per_signature": sigCount,
+		"types": names, "per_kind": perKind, "last_ops": opsSeen, "operand": operand, "mismatches_per_signature": sigCount, "write_through_cases": through,
 		"private_states_checked": statPrivate, "states_with_stored_zero": statStoredZero,
 		"states_with_index_overapproximation": statIndexOver})
 }
